@@ -303,7 +303,9 @@ def relax_trailing(g):
                 nxt = xs[i + 1] if i + 1 < len(xs) else None
                 inner = x[1] if x[0] == "opt" else x
                 listy = is_list(inner) or (inner[0] == "nt" and inner[1] in list_nts)
-                if listy and nxt is not None and nxt[0] == "tok" and nxt[1] in closers:
+                # the same list written inline in a longer sequence: `... X ( "," X )* ")"`
+                inline = (i > 0 and x[0] == "star" and x[1][0] == "seq" and len(x[1]) == 3 and x[1][1] == T("Comma") and x[1][2] == xs[i - 1])
+                if (listy or inline) and nxt is not None and nxt[0] == "tok" and nxt[1] in closers:
                     out.append(walk(x))
                     out.append(O(T("Comma")))
                 else:
